@@ -190,6 +190,31 @@ def run(ctx):
                     okz = okb = True
         ctx.ob('C18.3', '%s zeroed over its whole length before accumulating' % name, okz and okb,
                'every counter of the summary starts at 0', loc=(z[0].loc if z else a.loc))
+    # a store through an index that is not known to stay inside its own counter array (logical_node_counts[s->info.kind] with
+    # kind >= section lands in the neighbouring array) must not come after the neighbour was zeroed
+    arrays = ('logical_node_counts', 'logical_edge_counts')
+    for name in arrays:
+        zs = [st for st in a.stores_to(INFO + name) if same_value(a, a.ap(st.ops[1]).root, s) and const_int(st.ops[0]) == 0]
+        stray = []
+        for other in arrays:
+            if other == name:
+                continue
+            olen = (m.struct_field('dr_dag_node_info', other) or {}).get('nelem')
+            for st in a.stores_to(INFO + other):
+                if not same_value(a, a.ap(st.ops[1]).root, s) or a.in_loop(st):
+                    continue
+                idx = [x for x in a.ap(st.ops[1]).steps if x[0] in ('i', 'p') and isinstance(x[1], str)]
+                if not idx:
+                    continue
+                lo, hi = lib.guard_interval(a, idx[-1][1], st)
+                if olen and lo is not None and hi is not None and 0 <= lo and hi < olen:
+                    continue
+                if any(st in a.reachable_from(z) for z in zs):
+                    stray.append(st)
+        ctx.ob('C18.3', 'no possibly out-of-range counter store after %s was zeroed' % name, not stray,
+               'the kind-indexed store of the summary node itself is not confined to its 4-entry array; executed after the '
+               'neighbouring array was cleared it leaves a 1 in it that every contraction then adds to the totals',
+               loc=(stray[0].loc if stray else a.loc))
     # the leaf initialiser clears the same counters over their whole length (nodes are recycled)
     ei = ctx.need_fn(m, 'dr_end_interval_')
     dn = ei.params[0]['id']
@@ -476,6 +501,11 @@ def rule4_edges(ctx, m, a, s):
                             'storage; statistics that classify a node as a contracted leaf by its range read it only under the kind that '
                             'selects the range (otherwise the delay / edge statistics change with the contraction policy)'):
             c19.rule9_union(ctx)
+        with ctx.shared({'C19.3': 'C18.8'}, floor=8,
+                        doc='re-contraction of a stored DAG keeps the totals (shared with C19.3): the shrinking copy marks children for '
+                            'copying only below a node it copies, and rewrites ranges only for non-empty source ranges - nodes kept below a '
+                            'dropped node are summed a second time by the report'):
+            c19.rule3_shrink(ctx, ctx.ssa('dr_dump.c', area='profiler'))
 
 
 OPENERS = {'dr_push_back_section': {'dr_task_ensure_section', 'dr_begin_section__'},
@@ -784,6 +814,9 @@ def combine_op(f, ref):
 
 INL = 'src/profiler/dag_recorder_inl.h'
 MUTANTS = [
+    {'name': 'edge counts zeroed before the kind-indexed node-count store (seed4 C18/m1)', 'expect': 'C18.3',
+     'edits': [('src/profiler/dag_recorder_inl.h', "        s->info.t_ready[i] = 0;\n      }", "        s->info.t_ready[i] = 0;\n        s->info.logical_edge_counts[i] = 0;\n      }"),
+               ('src/profiler/dag_recorder_inl.h', "      s->info.logical_node_counts[s->info.kind] = 1;\n      for (i = 0; i < dr_dag_edge_kind_max; i++) {\n        s->info.logical_edge_counts[i] = 0;\n      }", "      s->info.logical_node_counts[s->info.kind] = 1;")]},
     {'name': 'report: work counts inner nodes as well', 'expect': 'C18.7',
      'edits': [('src/profiler/gen_stat.c', "    if (t->info.kind < dr_dag_node_kind_section\n\t|| t->subgraphs_begin_offset == t->subgraphs_end_offset) {\n      total_elapsed += elapsed;", "    if (1) {\n      total_elapsed += elapsed;")]},
     {'name': 'report: work keeps only the last leaf', 'expect': 'C18.7',
